@@ -144,7 +144,7 @@ ssize_t __wrap_recvmsg(int fd, struct msghdr *m, int fl) {
 typedef struct { int fam, a, port; } saddr_t;
 static int g_gai_rc, g_gai_n; static saddr_t g_gai_ans[16];
 static int g_gai_out;                       /* chains handed out and not yet given to freeaddrinfo */
-static int g_gai_calls, g_gai_free_calls, g_gai_hfam, g_gai_hflags; static char g_gai_node[128], g_gai_serv[32];
+static int g_gai_calls, g_gai_free_calls, g_gai_hfam, g_gai_hflags; static char g_gai_node[512], g_gai_serv[32];
 static void mk_sa(const saddr_t *a, struct sockaddr_storage *ss) {
 	memset(ss, 0, sizeof(*ss));
 	if (a->fam == 4) {
@@ -489,7 +489,7 @@ static int sap_exec(const char *op, const char *a, sb_t *b) {
 	} else if (!strcmp(op, "sap.dgram")) {
 		static char hex[20000]; static uint8_t pkt[9000]; int rf = 0, af = 0;
 		sscanf(a, "%19999s %d %d", hex, &rf, &af);
-		if (!SR) die("sap.dgram without receiver");
+		if (!SR) { sb_put(b, "{\"op\":\"sap.skip\","); sap_state(b); return 1; }   /* the create before it failed (probes) */
 		int n = unhex(hex, pkt, sizeof(pkt)); if (n < 0) die("hex");
 		g_recvfail = rf;
 		pthread_mutex_lock(&g_pr_mu); long target = g_n_rx + 1; pthread_mutex_unlock(&g_pr_mu);
@@ -513,7 +513,7 @@ static int sap_exec(const char *op, const char *a, sb_t *b) {
 		int dt = 0; sscanf(a, "%d", &dt); g_now += dt;
 		sb_put(b, "{\"op\":\"sap.tick\",\"dt\":%d,", dt);
 	} else if (!strcmp(op, "sap.destroy")) {
-		if (!SR) die("sap.destroy without receiver");
+		if (!SR) { sb_put(b, "{\"op\":\"sap.skip\","); sap_state(b); return 1; }
 		run_on_pool(p_destroy, NULL);
 		SR = NULL; g_rskt = -1;
 		sb_put(b, "{\"op\":\"sap.destroy\",");
